@@ -13,6 +13,11 @@ spec:     spec/ReproDoc.tla restricted to the dict interface (Ops = get/set/del)
           NlOnlySupplied, checked by TLC over every history of adds / deletes / replacements.
           Assignments of a REJECTED value (blob BadV: not deb822 syntax for one field) are part of
           every configuration: result ValueError, document unchanged (ErrAtomic, CommentsStay).
+          Replacement laws (invariant ReplaceLaws = ReplaceLawsOf(RAssign, every reachable paragraph),
+          stated independently of RAssign's mechanics): an assignment to a present field leaves the
+          instances in front of it untouched, keeps name, spelling and COMMENT BLOB in the target's
+          place, and behind it only drops the other occurrences of the name.  A comment blob stands
+          for any block of comment lines - also lines made of "#" and blanks only.
 binding:  (a) complete LTS replayed into debian._deb822_repro: after every call dump() must equal
               the concatenation of the untouched original texts and the new field text (locality),
               and the value is read back under every case variant, also from a fresh parse;
@@ -20,7 +25,8 @@ binding:  (a) complete LTS replayed into debian._deb822_repro: after every call 
           (b) recorded get/set/del histories on random documents validated by TraceReproDoc.tla
               (events carry nl per field; comparison modulo the newline at the very END only)
 negative controls: spec level MC_ReproDoc_neg_nl.cfg (REnsureNl <- identity: TLC must report
-          DocWellFormed violated); trace level: corrupted histories (wrong outcome, lost comment,
+          DocWellFormed violated) and MC_ReproDoc_neg_cmt.cfg (an assignment that rebuilds the field
+          without its comment block: NegReplaceLaws violated); trace level: corrupted histories (wrong outcome, lost comment,
           a non-last field without newline, a rejected assignment that drops a comment)
 
 API surface / domain (the complete table of entry points and input forms is in the docstring of
@@ -48,6 +54,12 @@ harness/repro_common.py, shared with C10); what this check exercises of the stat
                                                                                calls on that paragraph, extra adds
   dump(), dump(fd), convert_to_text(),     doc (text = concatenation of      check_state after every call
     fresh parse of the dump                  instance texts)
+  layout of the comment lines: the field's  comment blob c / separator id /    every Conc (lts legs + trace leg): 40 % of the
+    own comment block, inner comments of     value blob (opaque: the model       field comments, 25 % of the free comments and 4
+    a value, free comments between           says WHICH blob stays where,        of 17 value layouts contain blank comment lines
+    paragraphs - text lines and BLANK        ReplaceLaws: the replaced field     ("#", "# ", "#\t", "#  \t ") alone, first, last,
+    comment lines ("#" + blanks only) in     keeps its own)                      in the middle, doubled (rc.comment_block,
+    every position of a block                                                    CMT_SHAPES); expected text byte for byte
   unspecified (executed, no verdict): whether the document ends in a newline after the last field was
     replaced or after the field following it was deleted again (compared modulo that one newline:
     eq_mod_final_newline / NormEnd); which error a rejected value with an unusable key raises;
@@ -90,6 +102,16 @@ def nl_negative_control(ctx):
     ctx.extra["negative_control_add_without_newline"] = neg.violated
 
 
+def cmt_negative_control(ctx):
+    """non-vacuity of ReplaceLaws: an assignment that rebuilds the field without its comment block is reported"""
+    import core
+    neg = ctx.tlc("MC_ReproDoc", "MC_ReproDoc_neg_cmt.cfg", workers=1, count=False)
+    if neg.violated != "NegReplaceLaws":
+        raise core.MachineryError("negative control: a replacement that loses the field's own comment lines is not "
+                                  "rejected by the replacement laws (%r)" % (neg.violated,))
+    ctx.extra["negative_control_replace_drops_comment"] = neg.violated
+
+
 def run(ctx):
     quick = ctx.tier == "quick"
     ctx.assumptions += [
@@ -98,7 +120,7 @@ def run(ctx):
         "deleting the only field of a paragraph is outside the domain",
         "a rejected value together with an unusable (name, i): either error accepted",
     ]
-    also = [lambda: nl_negative_control(ctx)]
+    also = [lambda: nl_negative_control(ctx), lambda: cmt_negative_control(ctx)]
     # every history of up to three calls whose last call changes the document is replayed (add X, add Y,
     # delete X; replace, delete, add again ...), longer ones as a seeded sample and as random walks
     prefer = PREFER
